@@ -14,8 +14,13 @@ for d in sorted(glob.glob(os.path.join(VERIF, "seeded", "*"))):
     m = json.load(open(mp))
     name = os.path.basename(d)
     det = m.get("detected_by", {})
-    caught = ", ".join("%s: %s" % (c, ("caught — " + re.sub(r"^\s*what:\s*", "", (v.get("first_lines") or ["", ""])[1] if len(v.get("first_lines", [])) > 1 else "")[:110]) if v.get("caught") else "MISSED")
-                       for c, v in det.items()) or "not evaluated"
+    def one(c, v):
+        if not (isinstance(v, dict) and v.get("caught")):
+            return "%s: MISSED" % c
+        fl = v.get("first_lines") or []
+        line = next((x for x in fl if "what:" in x), fl[0] if fl else "")
+        return "%s: caught — %s" % (c, re.sub(r"^\s*what:\s*", "", line)[:110])
+    caught = ", ".join(one(c, v) for c, v in det.items()) or "not evaluated"
     what = (m.get("what") or "").replace("|", "/").replace("\n", " ")[:230]
     needs = (m.get("needs") or "").replace("|", "/").replace("\n", " ")[:200]
     hist = (m.get("history") or "").replace("|", "/")
